@@ -9,6 +9,7 @@ CONSTANTS
   Sources <- MC_Both
   ScriptMsgs <- MC_ScriptMsgs
   MaxScript = 2
+  Flaws <- MC_NoFlaws
 INVARIANTS TypeOK
 PROPERTIES X02_Concludes X02_HonestCompletes
 CHECK_DEADLOCK FALSE
